@@ -61,7 +61,7 @@ func (o c14Op) String() string {
 
 var c14CfgNames = []string{"RegisterInfix(OP)", "RegisterPostfix(BANG)", "RegisterPrefix(PRE)", "UseStatementInterceptor(s1)", "UseExpressionInterceptor(re-entrant)", "WithTolerantMode", "WithSmartSemicolon", "UseStatementInterceptor(s2)"}
 var c14KoptNames = []string{"WithPrettyPrint(3 spaces,no semi)", "WithPrettyPrint()", "WithSourceMap()"}
-var c14Inputs = []string{"a OP b * c; x = n BANG", "PRE a\n(b) PRE c", "let", "f(function() { return - -a }) // c\n\n\n// section two\nz BANG OP"}
+var c14Inputs = []string{"a OP b * c; x = n BANG", "PRE a\n(b) PRE c", "let x = 1;;\nlet y = 2;;;z", "f(function() { return - -a }) // c\n\n\n// section two\nz BANG OP"}
 
 type c14Builder struct {
 	lb    *lexer.Builder
